@@ -91,6 +91,7 @@ package internal
 //@   ensures [C02,C11,C13] one-job-per-task-and-predicate-of-the-directive: jobsMatchDirective
 //@   ensures [C02] one-result-store-per-results-argument: resultsMatchDirective
 //@   ensures [C03,C15] no-user-function-runs-on-the-calling-goroutine: noUserFunctionOnCaller
+//@   ensures [C15] no-generated-name-captures-an-identifier-of-a-user-expression: userExpressionsResolveOutsideTheWrapper
 //@   ensures [C15] arguments-hoisted-once-in-source-order-before-generated-code: hoistedAssignedOnce && hoistOrdered && hoistBeforeGenerated
 //@   ensures [C02,C12] shared-cells-have-a-single-writer-and-distinct-types: singleWriter && cellTypesDistinct
 //@   ensures [C12] ran-flag-is-atomic: ranIsAtomic
@@ -110,6 +111,7 @@ package internal
 //@   ensures [C15,C13] exactly-the-directives-arguments-are-hoisted: hoistedExactlyTheArguments
 //@   ensures [C10,C13] one-job-per-task-slice-map-and-end-hook-of-the-directive: jobsMatchDirective
 //@   ensures [C03,C15] no-user-function-runs-on-the-calling-goroutine: noUserFunctionOnCaller
+//@   ensures [C15] no-generated-name-captures-an-identifier-of-a-user-expression: userExpressionsResolveOutsideTheWrapper
 //@   ensures [C15] arguments-hoisted-once-in-source-order-before-generated-code: hoistedAssignedOnce && hoistOrdered && hoistBeforeGenerated
 //@   ensures [C12] no-shared-cells-written-twice: singleWriter
 //@   ensures [C12] ran-flag-is-atomic: ranIsAtomic
